@@ -1,4 +1,6 @@
 import SpVerif.Proofs.Mutation
+import SpVerif.Props.C02
+import SpVerif.Props.C03
 import SpVerif.Props.C06Fixed
 import SpVerif.Props.C07
 import SpVerif.Props.C17
@@ -1035,6 +1037,50 @@ theorem C11_frame_fresh (f : Frame)
         rw [← hsize]
 
 end Uslp
+
+/-! ## decode, then continue: decoded objects start inside the invariant as well -/
+section Decoded
+open SpVerif.PusTc SpVerif.PusTm SpVerif.SpacePacket SpVerif.CfdpHeader SpVerif.FileDirective
+
+/-- a decoded telecommand satisfies the invariant (so every theorem above applies to setter
+    sequences that start from `PusTc.unpack`) -/
+theorem C11_tc_unpack_inv (d : Bytes) (s : TcS) (h : TcS.ofUnpack d = .ok s) : TcInv s := by
+  unfold TcS.ofUnpack at h
+  obtain ⟨t, ht, h⟩ := bind_ok_inv h
+  have := pure_ok_inv h
+  subst this
+  obtain ⟨h13, hle, _, hdata, _⟩ := C02.C02_accept_sound d t ht
+  have hl : t.appData.length = t.packetLen - 13 := by
+    rw [hdata]; simp only [slice_length]; omega
+  simp only [TcInv, PusTc.dataLength]
+  simp only [Tc.packetLen, Sph.packetLen] at hl h13
+  omega
+
+theorem C11_tm_unpack_inv (d : Bytes) (n : Nat) (s : TmS) (h : TmS.ofUnpack d n = .ok s) : TmInv s := by
+  unfold TmS.ofUnpack at h
+  obtain ⟨t, ht, h⟩ := bind_ok_inv h
+  have := pure_ok_inv h
+  subst this
+  obtain ⟨h13, hle, _, hts, hdata⟩ := C03.C03_accept_sound d n t ht
+  have hl : t.sourceData.length = t.packetLen - (15 + n) := by
+    rw [hdata]; simp only [slice_length]; omega
+  simp only [TmInv, PusTm.dataLen, hts]
+  simp only [Tm.packetLen, Sph.packetLen] at hl h13
+  omega
+
+theorem C11_fd_unpack_inv (d : Bytes) (p : FileData.Pdu) (h : FileData.Pdu.unpack d = .ok p) : FdInv p := by
+  obtain ⟨wf, _, _, _⟩ := C07.C07_decode_encode d p h
+  obtain ⟨wh, hflag, hdfl, _, _⟩ := wf
+  obtain ⟨_, _, _, _, _, _, _, hlt, _, _, _, hw⟩ := wh
+  exact ⟨⟨hdfl, hflag⟩, hw, by omega⟩
+
+theorem C11_nak_unpack_inv (d : Bytes) (k : Nak.Nak) (h : Nak.Nak.unpack d = .ok k) : NakInv k := by
+  obtain ⟨hp, _, _, _, _, hdfl, _⟩ := Nak.unpack_inv d k h
+  obtain ⟨wh, _, _, _, _, _⟩ := prelude_facts d _ _ hp
+  obtain ⟨_, _, _, _, hff, _, _, hlt, _, _, _, hw⟩ := wh
+  exact ⟨hff, hw, by omega, hdfl⟩
+
+end Decoded
 
 /-! ## caller inputs -/
 section Caller
